@@ -277,3 +277,21 @@ func c11Walker(c *eng.Ctx) {
 		c.Unresolved("audit.hashWalker.key")
 	}
 }
+
+type reWrap struct{ re *regexp.Regexp }
+
+func regexpMust(p string) *reWrap { return &reWrap{regexp.MustCompile(p)} }
+
+// FindStringSubmatch returns [full, firstNonEmptyGroup].
+func (r *reWrap) FindStringSubmatch(s string) []string {
+	m := r.re.FindStringSubmatch(s)
+	if m == nil {
+		return nil
+	}
+	for _, g := range m[1:] {
+		if g != "" {
+			return []string{m[0], g}
+		}
+	}
+	return nil
+}
